@@ -25,6 +25,7 @@ import (
 	"verifharness/ref"
 	"verifharness/simnet"
 	"verifharness/srv"
+	"verifharness/tbl"
 )
 
 func init() { register("C01", c01) }
@@ -36,6 +37,7 @@ type c01cfg struct {
 	passive   bool
 	onQuery   string // "", "allow", "veto"
 	state     string // empty populated stored
+	blocklist bool   // an IP blocklist covering part of the source addresses is configured
 }
 
 func c01configs() (out []c01cfg) {
@@ -43,12 +45,13 @@ func c01configs() (out []c01cfg) {
 		for _, sec := range []bool{false, true} {
 			for _, oq := range []string{"", "allow", "veto"} {
 				for _, st := range []string{"empty", "populated", "stored"} {
-					out = append(out, c01cfg{fmt.Sprintf("peerstore=%v security=%v onquery=%q state=%s", ps, sec, oq, st), ps, sec, false, oq, st})
+					out = append(out, c01cfg{fmt.Sprintf("peerstore=%v security=%v onquery=%q state=%s", ps, sec, oq, st), ps, sec, false, oq, st, false})
 				}
 			}
 		}
 	}
-	out = append(out, c01cfg{"passive peerstore=true state=populated", true, false, true, "", "populated"}, c01cfg{"passive state=empty", false, false, true, "", "empty"})
+	out = append(out, c01cfg{"passive peerstore=true state=populated", true, false, true, "", "populated", false}, c01cfg{"passive state=empty", false, false, true, "", "empty", false})
+	out = append(out, c01cfg{"blocklist peerstore=true state=populated", true, false, false, "", "populated", true}, c01cfg{"blocklist security=true state=empty", false, true, false, "", "empty", true})
 	return
 }
 
@@ -151,6 +154,11 @@ func c01server(cf c01cfg, r *gen.Rand, extra func(*dht.ServerConfig)) (*srv.Node
 	if cf.peerStore {
 		cfg.PeerStore = &peer_store.InMemory{}
 	}
+	if cf.blocklist {
+		bl := tbl.NewBlocklist()
+		bl.AddNet16(55, 66)
+		cfg.IPBlocklist = bl
+	}
 	switch cf.onQuery {
 	case "allow":
 		cfg.OnQuery = func(*krpc.Msg, net.Addr) bool { return true }
@@ -210,6 +218,11 @@ func c01inbound(c *evid.Ctx, r *gen.Rand, cf c01cfg, count int, corpus [][]byte,
 				from = alloc.Mapped()
 			case 5:
 				from = &net.UDPAddr{IP: r.PublicIPv4(), Port: 0}
+			case 6:
+				from = alloc.V4()
+				if cf.blocklist {
+					from = &net.UDPAddr{IP: net.IP{55, 66, byte(r.Intn(256)), byte(1 + r.Intn(250))}, Port: r.Port()}
+				}
 			default:
 				from = alloc.V4()
 			}
